@@ -33,11 +33,18 @@ class SimCtx:
         self.evl = r.attr
         self.clock_t = f'self.{self.clock}'
         self.evl_t = f'self.{self.evl}'
-        for f in ('_run_until_time', '_run_until_including', '_run_state', '_replication_state', '_replication'):
+        for f in ('_run_state', '_replication_state', '_replication'):
             if not self.field_written(f):
                 raise AnalysisError(f'anchor vanished: field {f} is never assigned in Simulator')
-        self.bound_t = 'self._run_until_time'
         self.end_t = 'self._replication.end_sim_time'
+
+    @property
+    def bound_t(self):
+        # the run bound is an anchor only of the rules that read it (horizon, admission): the others do not depend on how it is kept
+        for f in ('_run_until_time', '_run_until_including'):
+            if not self.field_written(f):
+                raise AnalysisError(f'anchor vanished: field {f} is never assigned in Simulator')
+        return 'self._run_until_time'
 
     def field_written(self, f):
         for c in (BASE, SIM):
